@@ -798,6 +798,17 @@ func Main(args []string) int {
 				local = append(local, &mcase{id: id + "|bytes|" + what, doc: id, style: "bytes", text: mb, ix: ix, base: base, class: "bytes"})
 			}
 		}
+		// raw YAML documents that cannot be built as trees (they exist only as text): attached to one crafted document
+		if id == "crafted/paramrefs.json" && replayDoc == "" {
+			for _, rd := range rawDocs() {
+				ix := &posIndex{}
+				for _, l := range strings.Split(rd.text, "\n") {
+					ix.lineLens = append(ix.lineLens, len(l))
+				}
+				ix.lines = len(ix.lineLens)
+				local = append(local, &mcase{id: id + "|bytes|raw:" + rd.name, doc: id, style: "bytes", text: []byte(rd.text), ix: ix, base: base, class: "bytes"})
+			}
+		}
 		flush() // baseline + byte-level cases first: they give the document's CPU/allocation reference
 		chunk := 120
 		if len(b) > 100000 {
@@ -1018,6 +1029,17 @@ func mustPlan(tree *jsonv.Value) []mutate.Spec {
 			seenKind["cycle"]++
 			out = append(out, mutate.Spec{Path: pp, Kind: "allof-cycle-inline"}, mutate.Spec{Path: pp, Kind: "allof-cycle-direct"}, mutate.Spec{Path: pp, Kind: "self-ref"})
 		}
+		// invalid regular expressions at pattern keywords and patternProperties keys (the same bad expression several
+		// times in one worker process: what a process keeps about an expression must not change the answer)
+		if (p[len(p)-1] == "pattern" && v.Kind == jsonv.String && seenKind["pattern"] < 3) ||
+			(len(p) >= 2 && p[len(p)-2] == "patternProperties" && seenKind["patternkey"] < 2) {
+			if p[len(p)-1] == "pattern" {
+				seenKind["pattern"]++
+			} else {
+				seenKind["patternkey"]++
+			}
+			out = append(out, mutate.Spec{Path: pp, Kind: "invalid-pattern"})
+		}
 		if len(p) >= 2 && p[len(p)-2] == "responses" && seenKind["respcode"] < 2 {
 			seenKind["respcode"]++
 			for _, k := range mutate.Kinds {
@@ -1045,5 +1067,30 @@ func mustPlan(tree *jsonv.Value) []mutate.Spec {
 			out = append(out, mutate.Spec{Path: pp, Kind: "null"}, mutate.Spec{Path: pp, Kind: "empty-map"}, mutate.Spec{Path: pp, Kind: "duplicate-key"})
 		}
 	})
+	return out
+}
+
+// rawDocs: YAML texts with nested anchors ("billion laughs") in the places whose values ogen converts on its own
+// (default, example, enum, extension values): 10 levels of 10 aliases each. The YAML loader's aliasing budget refuses
+// them at once; a conversion that walks the nodes itself must not expand them (10^10 scalars).
+func rawDocs() []struct{ name, text string } {
+	bomb := func(indent string) string {
+		names := "abcdefghij"
+		var b strings.Builder
+		fmt.Fprintf(&b, "%sa: &a [x,x,x,x,x,x,x,x,x,x]\n", indent)
+		for i := 1; i < len(names); i++ {
+			refs := strings.TrimSuffix(strings.Repeat("*"+string(names[i-1])+",", 10), ",")
+			fmt.Fprintf(&b, "%s%c: &%c [%s]\n", indent, names[i], names[i], refs)
+		}
+		return b.String()
+	}
+	head := "openapi: 3.0.3\ninfo: {title: t, version: \"1\"}\npaths:\n  /x:\n    get:\n      operationId: getX\n      responses:\n        \"200\":\n          description: ok\n          content:\n            application/json:\n"
+	var out []struct{ name, text string }
+	for _, key := range []string{"default", "example", "x-ogen-properties"} {
+		out = append(out, struct{ name, text string }{"alias-bomb-" + key, head + "              schema:\n                type: object\n                " + key + ":\n" + bomb("                  ")})
+	}
+	out = append(out, struct{ name, text string }{"alias-bomb-enum", head + "              schema:\n                type: object\n                enum:\n                  -\n" + bomb("                    ")})
+	out = append(out, struct{ name, text string }{"alias-bomb-media-example", head + "              schema:\n                type: object\n              example:\n" + bomb("                ")})
+	out = append(out, struct{ name, text string }{"alias-bomb-examples", head + "              schema:\n                type: object\n              examples:\n                one:\n                  value:\n" + bomb("                    ")})
 	return out
 }
